@@ -5,6 +5,7 @@ import (
 	"fmt"
 	"sort"
 	"strings"
+	"time"
 
 	"github.com/nalgeon/redka"
 	"github.com/nalgeon/redka/verifhook"
@@ -104,6 +105,11 @@ func ContentOfDB(db *redka.DB) (Content, error) { return contentOfRaw(db.RO) }
 // SameContent compares two contents; expiry instants may differ by the clock
 // skew between the two executions.
 func SameContent(a, b Content) (bool, string) {
+	// what is compared is the VISIBLE content: a key whose expiry instant has passed is gone for
+	// every reader; when its rows are physically removed is the business of each side's
+	// background cleaner (the two tick at different moments)
+	now := time.Now().UnixMilli()
+	a, b = a.visible(now), b.visible(now)
 	if a.Text != b.Text {
 		return false, "elements differ"
 	}
@@ -126,6 +132,34 @@ func SameContent(a, b Content) (bool, string) {
 		}
 	}
 	return true, ""
+}
+
+// visible drops the keys whose expiry instant is not after now.
+func (c Content) visible(now int64) Content {
+	gone := map[string]bool{}
+	for k, et := range c.ETimes {
+		if et <= now {
+			gone[strings.ToLower(k)] = true
+		}
+	}
+	if len(gone) == 0 {
+		return c
+	}
+	out := Content{ETimes: map[string]int64{}}
+	var b strings.Builder
+	for _, ent := range strings.Fields(c.Text) {
+		name := strings.ToLower(strings.SplitN(ent, ":", 2)[0])
+		if !gone[name] {
+			b.WriteString(ent + " ")
+		}
+	}
+	out.Text = b.String()
+	for k, et := range c.ETimes {
+		if !gone[strings.ToLower(k)] {
+			out.ETimes[k] = et
+		}
+	}
+	return out
 }
 
 type discard struct{}
